@@ -72,6 +72,54 @@ type world struct {
 	cl      *imapclient.Client
 	srv     *vh.Conn
 	br      *bufio.Reader
+	dbg     *parker
+}
+
+// parker is the client's DebugWriter: it sees every chunk the reader goroutine takes from the connection
+// before the reader parses it.  Armed, it parks the reader on the chunk that carries the marker: everything
+// up to the end of that chunk is then in the reader's buffer, the reader has not looked at it yet.
+type parker struct {
+	mu      sync.Mutex
+	armed   bool
+	parked  chan struct{} // closed when the reader is parked
+	release chan struct{}
+}
+
+const parkMarker = "parkme"
+
+func (p *parker) arm() {
+	p.mu.Lock()
+	p.armed, p.parked, p.release = true, make(chan struct{}), make(chan struct{})
+	p.mu.Unlock()
+}
+
+func (p *parker) Write(b []byte) (int, error) {
+	p.mu.Lock()
+	hit := p.armed && bytes.Contains(b, []byte(parkMarker))
+	var parked, release chan struct{}
+	if hit {
+		p.armed = false
+		parked, release = p.parked, p.release
+	}
+	p.mu.Unlock()
+	if hit {
+		close(parked)
+		<-release
+	}
+	return len(b), nil
+}
+
+func (p *parker) open() {
+	p.mu.Lock()
+	p.armed = false
+	if p.release != nil {
+		select {
+		case <-p.release:
+		default:
+			close(p.release)
+		}
+	}
+	p.mu.Unlock()
 }
 
 var current *world // the hook is global: one world at a time per process
@@ -151,13 +199,13 @@ func (w *world) waitArrival(p int, point string, d time.Duration) (arrival, bool
 func newWorld(gating bool) (*world, error) {
 	c, s := vh.NewConnPair()
 	w := &world{procOf: map[int64]int{}, inClose: map[int]bool{}, release: map[int]chan struct{}{}, arrived: map[int]arrival{},
-		gating: gating, srv: s, br: bufio.NewReader(s)}
+		gating: gating, srv: s, br: bufio.NewReader(s), dbg: &parker{}}
 	w.cond = sync.NewCond(&w.mu)
 	curMu.Lock()
 	current = w
 	curMu.Unlock()
 	s.Write([]byte("* OK [CAPABILITY IMAP4rev1] ready\r\n"))
-	w.cl = imapclient.New(c, nil)
+	w.cl = imapclient.New(c, &imapclient.Options{DebugWriter: w.dbg})
 	if err := w.cl.WaitGreeting(); err != nil {
 		return nil, err
 	}
@@ -165,6 +213,7 @@ func newWorld(gating bool) (*world, error) {
 }
 
 func (w *world) shutdown() {
+	w.dbg.open()
 	// open every gate so that nothing of this world stays parked
 	w.mu.Lock()
 	w.gating = false
@@ -272,16 +321,34 @@ func runSchedule(sched []schedEv) *verdict {
 					return fail(i, "stuck/write", "the API call did not return")
 				}
 			}
-		case "answer":
+		case "atake":
+			// the reader reads the tag of the tagged response and takes the command; the rest of the line reaches
+			// its buffer, but the reader is parked (in the DebugWriter) before it looks at it
 			tag := tags[ev.C]
-			w.srv.SetReadDeadline(time.Now().Add(watchdog))
-			w.srv.Write([]byte(tag + " OK done\r\n"))
+			w.srv.Write([]byte(tag + " OK "))
+			deadline := time.Now().Add(watchdog)
+			for !w.srv.PeerBlockedInRead() {
+				if time.Now().After(deadline) {
+					return fail(i, "schedule-not-realisable/atake", "the reader did not come back for the rest of the tagged response")
+				}
+				time.Sleep(20 * time.Microsecond)
+			}
+			w.dbg.arm()
+			w.srv.Write([]byte(parkMarker + "\r\n"))
+			select {
+			case <-w.dbg.parked:
+			case <-time.After(watchdog):
+				return fail(i, "schedule-not-realisable/atake", "the reader did not read the rest of the tagged response")
+			}
+		case "acomp":
+			tag := tags[ev.C]
+			w.dbg.open()
 			deadline := time.Now().Add(watchdog)
 			seen := false
 			for !seen && time.Now().Before(deadline) {
 				w.mu.Lock()
 				for _, e := range w.log {
-					if e.Point == "complete" && e.Tag == tag {
+					if e.Point == "complete" && e.Tag == tag && e.Proc == 0 {
 						seen = true
 					}
 				}
@@ -291,7 +358,7 @@ func runSchedule(sched []schedEv) *verdict {
 				}
 			}
 			if !seen {
-				return fail(i, "stuck/answer", "tagged OK for %s was not followed by its completion", tag)
+				return fail(i, "stuck/answer", "the reader read the whole tagged OK for %s but did not complete the command", tag)
 			}
 			completedInSched[ev.C] = true
 		case "dfind":
